@@ -202,6 +202,14 @@ def make_matrix(rng, N, kind):
         A = A + A.T
         same = g[:, None] == g[None, :]
         D = np.where(same, A * 1e-13, A * 1e10)
+    elif kind == "MD":
+        # some arcs carry denormal weights (1e-310): 1/d overflows to inf, inf/inf is NaN in a normalised cut
+        A = rng.uniform(0.5, 2.0, size=(N, N))
+        A = np.triu(A, 1)
+        A = A + A.T
+        tiny = np.triu(rng.random((N, N)) < 0.25, 1)
+        tiny = tiny | tiny.T
+        D = np.where(tiny, A * 1e-310, A)
     elif kind == "MA":
         D = rng.uniform(0.1, 10, size=(N, N))       # asymmetric: D[i][j] != D[j][i]
     elif kind == "ONES":
